@@ -38,10 +38,14 @@ type c19Params struct {
 	// NoActive: active health checks are off (no health-check loop to wait for); the pool must be
 	// shut down all the same
 	NoActive bool
+	// Tunnel: a request is in flight at its backend for the whole scenario and beyond (an open
+	// WebSocket tunnel, a long download: what http.Server.Shutdown gives up on after the
+	// timeout or never waits for): Stop must return all the same
+	Tunnel bool `json:",omitempty"`
 }
 
 func c19Scenario(p c19Params, bound int) vh.SScenario {
-	return vh.SScenario{Name: fmt.Sprintf("shutdown-ticks%d-stops%d-req%v-hang%v-cleanup%v-noactive%v", p.Ticks, p.Stops, p.Request, p.Hang, p.Cleanup, p.NoActive), KeyPrefix: "C19", Bound: bound, Params: p,
+	return vh.SScenario{Name: fmt.Sprintf("shutdown-ticks%d-stops%d-req%v-hang%v-cleanup%v-noactive%v", p.Ticks, p.Stops, p.Request, p.Hang, p.Cleanup, p.NoActive) + map[bool]string{true: "-tunnel-open"}[p.Tunnel], KeyPrefix: "C19", Bound: bound, Params: p,
 		ShardSubtrees: true, Horizon: 2000,
 		Body: func(x *vh.Exec) {
 			s := x.S
@@ -50,6 +54,13 @@ func c19Scenario(p c19Params, bound int) vh.SScenario {
 			k.lb.wsPool.Put("b0", conns[0])
 			k.lb.wsPool.Put("b0", conns[1]) // one pool key: Shutdown ranges over a map, whose order would make replays diverge
 			s.Settle()                      // initial probe round
+			var tunnel *held
+			if p.Tunnel {
+				tunnel = k.startHeld("10.0.0.9")
+				if tunnel.at == nil {
+					vh.ToolError("the long-lived request did not reach a backend")
+				}
+			}
 			stopsReturned := 0
 			var stopTook time.Duration
 			probesAtLastStop := -1
@@ -117,6 +128,13 @@ func c19Scenario(p c19Params, bound int) vh.SScenario {
 				// may eject its backend, so a request racing Stop itself can see 503)
 				key, what = "C19/request-never-completed", "a client request running concurrently with Stop never completed"
 			}
+			if key == "" && tunnel != nil {
+				// the long-lived exchange ends when its peers end it, after the balancer has stopped
+				k.release(tunnel.at)
+				if !tunnel.done {
+					key, what = "C19/request-never-completed", "a request that was in flight across Stop never completed"
+				}
+			}
 			if key == "" {
 				// a further Stop is a harmless no-op
 				k.lb.Stop()
@@ -154,10 +172,14 @@ func TestVerifC19(t *testing.T) {
 		p c19Params
 		b int
 	}
-	scs := []sc{{c19Params{1, 1, false, false, false, false}, 2}, {c19Params{2, 1, false, false, false, false}, 2}, {c19Params{1, 2, false, false, false, false}, 2}, {c19Params{1, 1, true, false, false, false}, 2}, {c19Params{0, 2, true, false, false, false}, 1}, {c19Params{1, 1, false, true, false, false}, 2}, {c19Params{1, 2, false, true, false, false}, 1}, {c19Params{0, 1, false, false, true, false}, 2}, {c19Params{1, 2, false, false, true, false}, 1}}
-	scs = append(scs, sc{c19Params{0, 1, false, false, false, true}, 2}, sc{c19Params{0, 2, true, false, true, true}, 1})
+	scs := []sc{{c19Params{1, 1, false, false, false, false, false}, 2}, {c19Params{2, 1, false, false, false, false, false}, 2}, {c19Params{1, 2, false, false, false, false, false}, 2}, {c19Params{1, 1, true, false, false, false, false}, 2}, {c19Params{0, 2, true, false, false, false, false}, 1}, {c19Params{1, 1, false, true, false, false, false}, 2}, {c19Params{1, 2, false, true, false, false, false}, 1}, {c19Params{0, 1, false, false, true, false, false}, 2}, {c19Params{1, 2, false, false, true, false, false}, 1}}
+	scs = append(scs, sc{c19Params{0, 1, false, false, false, true, false}, 2}, sc{c19Params{0, 2, true, false, true, true, false}, 1})
+	scs = append(scs, sc{c19Params{1, 1, false, false, false, false, true}, 1}, sc{c19Params{0, 2, true, false, false, true, true}, 1})
 	if vres.Thorough() {
-		scs = []sc{{c19Params{0, 1, false, false, false, true}, 3}, {c19Params{0, 2, true, false, true, true}, 2}, {c19Params{1, 1, false, false, false, false}, 3}, {c19Params{2, 1, false, false, false, false}, 2}, {c19Params{1, 2, false, false, false, false}, 2}, {c19Params{1, 1, true, false, false, false}, 2}, {c19Params{0, 2, true, false, false, false}, 2}, {c19Params{2, 2, true, false, false, false}, 1}, {c19Params{1, 1, false, true, false, false}, 3}, {c19Params{2, 2, false, true, false, false}, 2}, {c19Params{0, 1, false, false, true, false}, 3}, {c19Params{1, 2, true, false, true, false}, 2}}
+		scs = []sc{{c19Params{0, 1, false, false, false, true, false}, 3}, {c19Params{0, 2, true, false, true, true, false}, 2}, {c19Params{1, 1, false, false, false, false, false}, 3}, {c19Params{2, 1, false, false, false, false, false}, 2}, {c19Params{1, 2, false, false, false, false, false}, 2}, {c19Params{1, 1, true, false, false, false, false}, 2}, {c19Params{0, 2, true, false, false, false, false}, 2}, {c19Params{2, 2, true, false, false, false, false}, 1}, {c19Params{1, 1, false, true, false, false, false}, 3}, {c19Params{2, 2, false, true, false, false, false}, 2}, {c19Params{0, 1, false, false, true, false, false}, 3}, {c19Params{1, 2, true, false, true, false, false}, 2}}
+	}
+	if vres.Thorough() {
+		scs = append(scs, sc{c19Params{1, 1, false, false, false, false, true}, 2}, sc{c19Params{0, 2, true, false, true, true, true}, 2})
 	}
 	for _, c := range scs {
 		vh.RunS(r, "TestVerifC19", c19Scenario(c.p, c.b))
